@@ -372,7 +372,7 @@ pub fn run(ctx: &Ctx) -> Outcome {
     if let Some(p) = &ctx.replay {
         return replay(p, out);
     }
-    let depth = if ctx.quick() { 4 } else { 6 };
+    let depth = if ctx.quick() { 5 } else { 7 };
     let deadline = Instant::now() + Duration::from_secs_f64(ctx.budget_s);
     let idcs: Vec<u32> = if ctx.quick() { vec![0, u32::MAX - 1] } else { vec![0, u32::MAX - 2, u32::MAX - 1, u32::MAX] };
     let mut states = 0;
